@@ -138,11 +138,13 @@ func newReplayer(m *mstate, obs map[int]byte, initcode map[int][]byte) *replayer
 }
 
 // body applies the frame's program; false = the frame must fail (reason in r.why[n.id]).
-func (r *replayer) body(n *node, self common.Address, static bool) bool {
-	r.ctx[n.id] = self
-	r.static[n.id] = static
+// key is the id under which this execution is recorded (differs from n.id when a later frame runs
+// the program of an earlier leaf again).
+func (r *replayer) body(n *node, key int, self common.Address, static bool) bool {
+	r.ctx[key] = self
+	r.static[key] = static
 	r.touched[self] = true
-	fail := func(s string) bool { r.why[n.id] = s; return false }
+	fail := func(s string) bool { r.why[key] = s; return false }
 	for _, s := range n.steps {
 		switch s.k {
 		case sSstore:
@@ -172,8 +174,10 @@ func (r *replayer) body(n *node, self common.Address, static bool) bool {
 			}
 		case sAuthCall:
 			// In a static context the property demands that nothing changes (whatever the opcode reports).
+			// AUTH accepts the signature only in the contract it was made for, AUTHCALL only with the
+			// authority's current nonce (the program always passes 0).
 			r.authorities[authorityOf(s.key)] = true
-			if !static {
+			if signCtx, ok := staticCtxOK(n); !static && ok && signCtx == self && r.m.acct(authorityOf(s.key)).nonce == 0 {
 				r.m.acct(authorityOf(s.key)).nonce++
 				r.m.move(r.origin, eoas[s.to], s.amount)
 			}
@@ -212,6 +216,7 @@ func (r *replayer) child(c *node, self common.Address, static bool) string {
 	st, known := r.obs[c.id]
 	noExec := ""
 	var addr common.Address
+	prog := c.prog()
 	switch c.kind {
 	case kCall, kCallCode:
 		if !r.m.canPay(self, c.value) {
@@ -226,7 +231,7 @@ func (r *replayer) child(c *node, self common.Address, static bool) string {
 		if c.kind == kCreate {
 			addr = createAddress(self, a.nonce)
 		} else {
-			addr = create2Address(self, uint64(c.id), r.initcode[c.id])
+			addr = create2Address(self, uint64(prog.id), r.initcode[prog.id])
 		}
 		a.nonce++
 		r.created[c.id] = addr
@@ -250,22 +255,22 @@ func (r *replayer) child(c *node, self common.Address, static bool) string {
 	cself, cstatic := self, static
 	switch c.kind {
 	case kCall:
-		cself = codeAddr(c.id)
+		cself = codeAddr(prog.id)
 		r.m.move(self, cself, c.value)
 	case kStatic:
-		cself, cstatic = codeAddr(c.id), true
+		cself, cstatic = codeAddr(prog.id), true
 	case kCreate, kCreate2:
 		cself = addr
 		a := r.m.acct(addr)
 		a.nonce = 1
 		r.m.move(self, addr, c.value)
 	}
-	ok := r.body(c, cself, cstatic)
+	ok := r.body(prog, c.id, cself, cstatic)
 	if ok && c.kind.creates() {
 		a := r.m.acct(cself)
 		a.created = true
-		if c.out == oReturn {
-			a.codeNode = c
+		if prog.out == oReturn {
+			a.codeNode = prog
 		}
 	}
 	if known { // st == 1
